@@ -6,9 +6,22 @@ import copy
 import time
 
 
+KEY_PREFIXES = ('fault=', 'site=', 'stale:', 'differs:', 'via=', 'attempt=',
+                'persist')
+
+
+def key_features(v):
+    return sorted(f for f in v.get('features', [])
+                  if f.startswith(KEY_PREFIXES))
+
+
 def same_class(vios, want):
+    """Same property and oracle, and the same key features (so that shrinking
+    does not drift to a different defect that trips the same oracle)."""
     for v in vios:
-        if v['property'] == want['property'] and v['oracle'] == want['oracle']:
+        if v['property'] == want['property'] and \
+           v['oracle'] == want['oracle'] and \
+           key_features(v) == key_features(want):
             return v
     return None
 
